@@ -575,6 +575,8 @@ class ApplicationJobs:
                 self.current_jobs.remove(command)
                 # generate a process event for this process to inform all Supvisors instances
                 reason = f'process {getProcessStateDescription(expected_state)} event not received in time'
+                # apply the failure strategy before the forced event is processed, as the latter may end the job
+                self.process_failure(command.process)
                 self.fail_command(command.process, command.identifier, event_time, reason)
             if result == ProcessRequestResult.SUCCESS:
                 # NOTE: the result has been reached outside the scope of the sequencer
